@@ -71,7 +71,7 @@ impl StagedWelcome {
     // StagedWelcome::into_group with replace_old_group(): creates (or REPLACES) the persisted MLS state of that group id
     #[verifier::external_body]
     pub fn into_group<S: MdkStorageProvider>(self, provider: &MdkProvider<S>, Tracked(w): Tracked<&mut World>) -> (r: Result<MlsGroup, WelcomeJoinError>)
-        ensures r is Ok ==> r->Ok_0.view() == self.joined_view() && self.joined_view().group_id == self.ctx().gid()
+        ensures r is Ok ==> r->Ok_0.view() == self.joined_view() && self.joined_view().group_id == self.ctx().gid() && self.joined_view().ext == self.ctx().ext()   // (assumed: the joiner's group data is the welcome's group context)
                     && *final(w) == (World { mls: old(w).mls.insert(self.ctx().gid(), self.joined_view()), joined: old(w).joined.push(self.ctx().gid()), ..*old(w) }),
                 r is Err ==> *final(w) == *old(w),
     { unimplemented!() }
